@@ -87,7 +87,7 @@ class C07(HistoryProperty):
         if rng.random() < 0.2:
             focus["default_options"] = g.preset()
         fid = g.add(focus, is_ds=True)
-        spec = {"nodes": g.nodes, "roots": [fid]}
+        spec = {"nodes": g.nodes, "roots": [fid], **({"env": spec["env"]} if spec.get("env") else {})}
         if not gen.spec_ok(spec):
             return self.gen_case(rng, tier)
         spec = gen.prune(spec)
